@@ -50,9 +50,21 @@ TMPLS = [[], [], [], [dict(k='eq', v=g.I(1))], [dict(k='any'), dict(k='gt', n=5)
          [dict(k='eq', v=g.I(1)), dict(k='any'), dict(k='eq', v=g.I(7))]]
 
 
+QUIET = dict(rk=0, acts=[])
+
+
+def rand_beh(rnd, nmax=6):
+    """what a callback does: nothing (mostly), raise on its k-th invocation, free/disable/enable responders"""
+    if rnd.random() < 0.55:
+        return QUIET
+    acts = [dict(op=rnd.choice(['free', 'disable', 'enable']), i=rnd.randint(1, nmax)) for _ in range(rnd.choice([0, 0, 1, 1, 2]))]
+    return dict(rk=rnd.choice([0, 1, 1, 1, 2, 3]), acts=acts)
+
+
 def create(rnd, **kw):
     e = dict(op='create', kind=rnd.choice(['exact', 'exact', 'matching']), path=codes(rnd.choice(PATHS)),
-             src=rnd.choice(SRCS), rport=rnd.choice([0, 0, 0, 1, 2]), tmpl=rnd.choice(TMPLS), os=rnd.random() < 0.25)
+             src=rnd.choice(SRCS), rport=rnd.choice([0, 0, 0, 1, 2]), tmpl=rnd.choice(TMPLS), os=rnd.random() < 0.25,
+             beh=rand_beh(rnd))
     e.update(kw)
     return e
 
@@ -110,7 +122,7 @@ def random_history(rnd, faults):
         elif x < 0.42:
             ev.append(dict(op='oneshot', i=i))
         elif x < 0.46:
-            ev.append(dict(op='setfunc', i=i, fn=rnd.randint(1, 3)))
+            ev.append(dict(op='setfunc', i=i, fn=rnd.randint(1, 3), beh=rand_beh(rnd)))
         elif x < 0.49:
             ev.append(dict(op='setperm', i=i, b=rnd.random() < 0.7))
         elif x < 0.52:
@@ -130,7 +142,7 @@ def random_history(rnd, faults):
 
 def directed_histories():
     rnd = random.Random(1)
-    plain = dict(src=dict(h=0, p=0), rport=0, tmpl=[], os=False)
+    plain = dict(src=dict(h=0, p=0), rport=0, tmpl=[], os=False, beh=QUIET)
     s1 = dict(h=1, p=5001)
     out = []
 
@@ -170,8 +182,30 @@ def directed_histories():
                 dict(op='recv', src=dict(h=2, p=5001), via=1, v=g.M('/a', []))])
     # enable / disable / free / setfunc / cmdperiod
     out.append([C('exact', '/a'), C('exact', '/a'), C('exact', '/a'), dict(op='disable', i=1), R(g.M('/a', [])), dict(op='enable', i=1),
-                R(g.M('/a', [])), dict(op='setfunc', i=2, fn=1), R(g.M('/a', [])), dict(op='setperm', i=3, b=True), dict(op='cmdperiod'),
+                R(g.M('/a', [])), dict(op='setfunc', i=2, fn=1, beh=QUIET), R(g.M('/a', [])), dict(op='setperm', i=3, b=True), dict(op='cmdperiod'),
                 R(g.M('/a', [])), dict(op='free', i=3), R(g.M('/a', []))])
+    # faults in callbacks: a raising callback must not stop the delivery, a one-shot that raised is spent
+    boom = dict(rk=1, acts=[])
+    for kind in ('exact', 'matching'):
+        out.append([C(kind, '/a', os=True, beh=boom), C(kind, '/a'), R(g.M('/a', [g.I(1)])), R(g.M('/a', [g.I(2)])), R(g.M('/a', [g.I(3)]))])
+        out.append([C(kind, '/a', beh=boom), C(kind, '/a'), C(kind, '/a', beh=dict(rk=2, acts=[])), R(g.M('/a', [])), R(g.M('/a', [])), R(g.M('/a', []))])
+        out.append([C(kind, '/a'), dict(op='oneshot', i=1), dict(op='setfunc', i=1, fn=1, beh=boom), dict(op='oneshot', i=1),
+                    R(g.M('/a', [])), R(g.M('/a', []))])
+    out.append([C('exact', '/a', beh=boom), C('matching', '/a'), C('matching', '/a', beh=boom), C('exact', '/a'),
+                R(g.M('/a', [])), R(g.M('/a', []))])
+    out.append([C('exact', '/a', beh=boom, os=True), C('exact', '/b'),
+                R(g.Bn(g.K('none'), [g.M('/a', [g.I(1)]), g.M('/b', []), g.M('/a', [g.I(2)])])), R(g.M('/a', []))])
+    # callbacks that free / disable / enable responders (others and themselves) from inside
+    for kind in ('exact', 'matching'):
+        out.append([C(kind, '/a', beh=dict(rk=0, acts=[dict(op='free', i=2)])), C(kind, '/a'), C(kind, '/a'), R(g.M('/a', [])), R(g.M('/a', []))])
+        out.append([C(kind, '/a'), C(kind, '/a', beh=dict(rk=0, acts=[dict(op='disable', i=1), dict(op='free', i=2)])), C(kind, '/a'),
+                    R(g.M('/a', [])), R(g.M('/a', [])), dict(op='enable', i=1), R(g.M('/a', []))])
+        out.append([C(kind, '/a', beh=dict(rk=1, acts=[dict(op='disable', i=1)])), C(kind, '/a', beh=dict(rk=0, acts=[dict(op='enable', i=1)])),
+                    R(g.M('/a', [])), R(g.M('/a', [])), R(g.M('/a', []))])
+        out.append([C(kind, '/a'), dict(op='disable', i=1), C(kind, '/b', beh=dict(rk=0, acts=[dict(op='enable', i=1)])), C(kind, '/a'),
+                    R(g.M('/b', [])), R(g.M('/a', [])), R(g.M('/*', []))])
+    out.append([C('exact', '/a', beh=dict(rk=0, acts=[dict(op='free', i=3)])), C('matching', '/a', beh=dict(rk=0, acts=[dict(op='free', i=4)])),
+                C('matching', '/a'), C('exact', '/a'), R(g.M('/a', [])), R(g.M('/a', []))])
     # bundles
     out.append([C('exact', '/a', os=True), C('exact', '/a'), C('exact', '/b'),
                 R(g.Bn(g.Lat(2), [g.M('/a', [g.I(1)]), g.M('/b', []), g.M('/a', [g.I(2)])])),
@@ -302,6 +336,8 @@ WHAT = dict(
     MissedMatch='the matcher rejected an address OSC 1.0 accepts',
     MalformedHang='a malformed datagram hung the receiver', MalformedRaised='a malformed datagram raised into the receiver',
     MalformedStuck='after a malformed datagram the dispatch clock stopped', MalformedFired='a malformed datagram invoked a responder',
+    CallbackRaised='an exception raised by a responder\'s callback reached the receiver',
+    CallbackStuck='after a callback raised the dispatch clock stopped', CallbackHang='the receiver hung',
     Hang='the receiver hung', Raised='an exception escaped into the receiver', Stuck='the dispatch clock stopped',
     FreedNeverFires='a freed responder was invoked', DisabledNeverFires='a disabled responder was invoked',
     EachOnce='a responder was invoked more than once for one message', ShouldNotFire='a responder was invoked that should not fire',
@@ -320,7 +356,11 @@ def brief(c, t, at):
                                                      [bytes(h).decode('latin-1') for h in t['hits']][:6], t['raised'])
     e = t['ev'][at - 1]
     if c['kind'] == 'dispatch':
-        resp = ['%d:%s %s%s' % (i + 1, x['kind'], bytes(x['path']).decode('latin-1'), ' one-shot' if x.get('os') else '')
+        def bh(b):
+            if not b or (not b['rk'] and not b['acts']):
+                return ''
+            return ' [%s%s]' % ('raises@%d ' % b['rk'] if b['rk'] else '', ','.join('%s %d' % (a['op'], a['i']) for a in b['acts']))
+        resp = ['%d:%s %s%s%s' % (i + 1, x['kind'], bytes(x['path']).decode('latin-1'), ' one-shot' if x.get('os') else '', bh(x.get('beh')))
                 for i, x in enumerate(y for y in c['ev'] if y['op'] == 'create')]
         return 'step %d: datagram %r from %s -> %s, invoked %s; responders %s' % (
             at, bytes(e['dg'])[:60], e['src'], e['out'], [(x['r'], bytes(x['a']).decode('latin-1')) for x in e['log']], resp)
@@ -329,12 +369,13 @@ def brief(c, t, at):
 
 def judge(ctx, cases, traces):
     res = {}
+    all_rej = {}
 
     def one(kind):
         module = SPEC[kind]
         sub = [traces[c['id']] for c in cases if c['kind'] == kind]
         t0 = time.time()
-        verdicts, _ = oscv.validate(ctx, module, module + '.cfg', sub, tag=kind)
+        verdicts, _ = oscv.validate(ctx, module, module + '.cfg', sub, tag=kind, all_rej=all_rej)
         ctx.cov.setdefault('phase_wall_s', {})['validate_' + kind] = round(time.time() - t0, 1)
         return verdicts
     with ThreadPoolExecutor(max_workers=3) as ex:      # the three trace specs side by side
@@ -354,22 +395,25 @@ def judge(ctx, cases, traces):
             ctx.nontrivial(c['ev'])
         if v is None:
             continue
-        at, why = v[0], v[1]
-        det = v[2] if len(v) > 2 else []
-        det = '+'.join(sorted(det)) if isinstance(det, list) else str(det)
-        if c['kind'] == 'match':
-            sig = 'match:%s' % why
-        elif c['kind'] == 'dispatch':
-            sig = ('malformed:%s:%s' if why.startswith('Malformed') else 'dispatch:%s:%s') % (why, det)
-        else:
-            e = t['ev'][at - 1]
-            sig = 'registry:%s:%s' % (e.get('cls', 'NotificationCenter'), why)
-        rp = {k: w for k, w in c.items() if k != 'id'}
-        if c['kind'] == 'dispatch':
-            # replay exactly the datagrams that were delivered
-            rp['ev'] = [dict(op='recv', dg=e['dg'], src=e['src'], via=e['via']) if e['op'] == 'recv' else
-                        {k: w for k, w in e.items() if k != 'exc'} for e in t['ev'][:at]]
-        ctx.violation(sig, '%s [%s]' % (WHAT.get(why, why), brief(c, t, at)[:600]), dict(kind='case', case=rp, why=why, detail=det, rejected_at=at))
+        # TraceDispatch judges every delivery of a history (and goes on after a rejection): report each
+        for v in sorted(all_rej.get(c['id'], [v])):
+            at, why = v[0], v[1]
+            det = v[2] if len(v) > 2 else []
+            det = '+'.join(sorted(det)) if isinstance(det, list) else str(det)
+            if c['kind'] == 'match':
+                sig = 'match:%s' % why
+            elif c['kind'] == 'dispatch':
+                sig = ('malformed:%s:%s' if why.startswith('Malformed') else 'dispatch:%s:%s') % (why, det)
+            else:
+                e = t['ev'][at - 1]
+                sig = 'registry:%s:%s' % (e.get('cls', 'NotificationCenter'), why)
+            rp = {k: w for k, w in c.items() if k != 'id'}
+            if c['kind'] == 'dispatch':
+                # replay exactly the datagrams that were delivered
+                rp['ev'] = [dict(op='recv', dg=e['dg'], src=e['src'], via=e['via']) if e['op'] == 'recv' else
+                            {k: w for k, w in e.items() if k != 'exc'} for e in t['ev'][:at]]
+            ctx.violation(sig, '%s [%s]' % (WHAT.get(why, why), brief(c, t, at)[:600]),
+                          dict(kind='case', case=rp, why=why, detail=det, rejected_at=at))
     return res
 
 
@@ -400,7 +444,7 @@ def run(ctx):
     hs += [dict(kind='dispatch', ev=h, src='model') for h in sim_histories(ctx, 1500 if thorough else 150)]
     ctx.cov['spec_behaviours_replayed'] = sum(1 for h in hs if h['src'] == 'model')
     # every fault datagram once, each followed by a normal message
-    plain = dict(src=dict(h=0, p=0), rport=0, tmpl=[], os=False)
+    plain = dict(src=dict(h=0, p=0), rport=0, tmpl=[], os=False, beh=QUIET)
     for i in range(0, len(fb), 2):
         ev = [dict(op='create', kind='exact', path=codes('/a'), **plain), dict(op='create', kind='matching', path=codes('/ab'), **plain)]
         for b in fb[i:i + 2]:
